@@ -938,6 +938,25 @@ func (u *Unit) specCall(x *ast.CallExpr, env *Env, sc *specCtx) Value {
 		return Value{App("str_replaceall", SStr, a.Term, b.Term, c3.Term), types.Typ[types.String]}
 	case "sprintf":
 		// fmt.Sprintf(format, args...) as the engine models it: an uninterpreted function of the format and the boxed arguments
+		// (a literal format of text and %s verbs over string arguments: the concatenation it denotes, as in lib.go)
+		if bl, ok := x.Args[0].(*ast.BasicLit); ok && bl.Kind == token.STRING {
+			if f, err := strconv.Unquote(bl.Value); err == nil {
+				var as []Term
+				allStr := true
+				for _, a := range x.Args[1:] {
+					v := u.sv(a, env, sc)
+					if v.Sort != SStr {
+						allStr = false
+					}
+					as = append(as, v.Term)
+				}
+				if allStr {
+					if t, ok := u.sprintfChain(f, as); ok {
+						return Value{t, types.Typ[types.String]}
+					}
+				}
+			}
+		}
 		var ts []Term
 		var ss []Sort
 		for i, a := range x.Args {
